@@ -38,6 +38,13 @@ def representations(key):
         except Exception:  # noqa: BLE001 - an importer may refuse them; then there is nothing to compare
             pass
     reps.append(("jwk-with-kid-0", cls.import_key(dict(d, kid="0"))))
+    # the optional members carry REAL values too: whatever algorithm, use or operations a key is designated for, the
+    # thumbprint is the SHA-256 one over the required members
+    for a in ("HS256", "HS384", "HS512", "RS384", "RS512", "PS384", "PS512", "ES384", "ES512", "EdDSA", "RSA-OAEP-256", "RSA-OAEP-384", "RSA-OAEP-512",
+              "A256KW", "ECDH-ES+A192KW", "PBES2-HS512+A256KW", "PBES2-HS384+A192KW", "A256GCM", "A256CBC-HS512", "dir", "none", "", "sha512"):
+        reps.append((f"jwk-with-alg-{a}", cls.import_key(dict(d, alg=a))))
+    for u, ops in (("sig", ["sign", "verify"]), ("enc", ["deriveKey"]), ("enc", ["wrapKey", "unwrapKey"])):
+        reps.append((f"jwk-with-use-{u}-ops", cls.import_key(dict(d, use=u, key_ops=ops))))
     if key.key_type != "oct":
         reps.append(("jwk-public", cls.import_key(key.as_dict(private=False))))
         reps.append(("pem-public", cls.import_key(key.as_pem(private=False))))
@@ -47,6 +54,8 @@ def representations(key):
             reps.append(("pem-private-empty-kid-parameter", cls.import_key(key.as_pem(private=True), {"kid": ""})))
             reps.append(("pem-private-unregistered-parameters", cls.import_key(key.as_pem(private=True), {"use": "sig", "rotation": "2026-09", "ext": True})))
             reps.append(("der-private", cls.import_key(key.as_der(private=True))))
+            for a in ("ES384", "RS512", "PS512", "EdDSA"):
+                reps.append((f"pem-private-alg-parameter-{a}", cls.import_key(key.as_pem(private=True), {"alg": a})))
             reps.append(("pem-encrypted", cls.import_key(key.as_pem(private=True, password="pw"), password="pw")))
     return reps
 
